@@ -233,6 +233,18 @@ func init() {
 		*p = st
 		return p
 	})
+	reg("time.NewTicker", func(fr *frame, fn *ssa.Function, args []value) value {
+		in := fr.in
+		tt := deref(fn.Signature.Results().At(0).Type())
+		p := new(value)
+		st := in.zero(tt).(structure)
+		in.noteAssumption("virtual time: a time.Ticker never ticks (periodic reporting / polling loops wait on their other channels)")
+		st[fieldIndex(tt, "C")] = &hchan{never: true}
+		*p = st
+		return p
+	})
+	reg("(*time.Ticker).Stop", func(fr *frame, fn *ssa.Function, args []value) value { return nil })
+	reg("(*time.Ticker).Reset", func(fr *frame, fn *ssa.Function, args []value) value { return nil })
 	reg("(*time.Timer).Stop", func(fr *frame, fn *ssa.Function, args []value) value { return fr.in.ts.True })
 	reg("(*time.Timer).Reset", func(fr *frame, fn *ssa.Function, args []value) value { return fr.in.ts.True })
 	reg("time.AfterFunc", func(fr *frame, fn *ssa.Function, args []value) value {
